@@ -363,6 +363,18 @@ type snappyCodec struct {
 }
 
 func (s *snappyCodec) decompress(compressed []byte) ([]byte, error) {
+	if len(compressed) < 4 {
+		return nil, errors.New("snappy block too short to hold its checksum")
+	}
+	// snappy.Decode allocates the length the block claims before looking at
+	// the data. No snappy stream expands by more than 64/3, so a claim
+	// beyond that is corrupt.
+	if n, err := snappy.DecodedLen(compressed[:len(compressed)-4]); err != nil {
+		return nil, fmt.Errorf("snappy decode failed: %w", err)
+	} else if n > 32*len(compressed) {
+		return nil, fmt.Errorf("snappy block of %d bytes claims to decode to %d bytes", len(compressed), n)
+	}
+
 	var err error
 	s.buf, err = snappy.Decode(s.buf[:cap(s.buf)], compressed[:len(compressed)-4])
 	if err != nil {
